@@ -10,7 +10,7 @@
    1. `nodes_exact`, `nodes_nodup`   one node per component, each once, plus a legend with a fresh name iff heat
       `nodes_exact_rendered_partial`  the same for the identifiers as Graphviz reads them (`_q(name)` round trip)
    2. `edges_exact`, `edges_rendered_partial`   the edge list is the parent → child list
-   3. `clusters_on/off`, `clusters`   cluster membership = non-empty group; no clusters when grouping is off
+   3. `clusters_on/off`, `clusters`, `cluster_rendered_partial`   cluster membership = non-empty group; none when off
    4. `override_precedence`, `heat_overrides`   default → class name → component name, label = name if none given;
       heat then sets three keys
    5. `config_unchanged`      the caller's configuration is the same value after the call (see the note there)
@@ -497,6 +497,15 @@ theorem edges_rendered_partial (h : diag sn comps edges cfg group heat = .ok d)
   obtain ⟨h1, h2⟩ := hok _ hm
   simp [renderedId_eq _ h1, renderedId_eq _ h2]
 
+/-- the cluster identifier `_q("cluster_" + g)` is read back as `cluster_<g>` for every group name DOT can express
+    (`:`, `"`, `<`, `>` … included: fix c7c5e36) -/
+theorem cluster_rendered_partial (g : String) (h : nameOk g = true) :
+    renderedId ("cluster_" ++ g) = some ("cluster_" ++ g) := by
+  apply renderedId_eq
+  unfold nameOk at h ⊢
+  rw [String.toList_append, bsOk_append_of_no_backslash _ _ (by decide)]
+  exact h
+
 /-- the full statement: for every system, the node identifiers Graphviz ends up with are the component names
     (plus the legend) -/
 def C19_nodes_full : Prop :=
@@ -591,6 +600,7 @@ example : namesOf (diag "x" [⟨"Scale", .source, ""⟩, ⟨"Scale_", .iload, ""
   decide +kernel
 example : [renderedId "A:x", renderedId "node", renderedId "a\"b", renderedId "<ab>", renderedId "x\\y{|}"]
     = [some "A:x", some "node", some "a\"b", some "<ab>", some "x\\y{|}"] := by decide +kernel
+example : renderedId "cluster_a:b" = some "cluster_a:b" ∧ renderedId "cluster_g\"1" = some "cluster_g\"1" := by decide +kernel
 example : renderedId "a\\" = none ∧ renderedId "b\\\"c" = none ∧ renderedId "a\\\\" = some "a\\\\" := by decide +kernel
 example : gcolor (-1/100000000) = .ok "#2120ff" ∧ gcolor 7 = .ok "#ff1210" := by decide +kernel
 -- errors of the real code are errors of the model
